@@ -468,3 +468,61 @@ Section Decrypted.
     exists q. split; [exact Hn|]. intros Hf. rewrite Hh. destruct (i_form q); try reflexivity. congruence.
   Qed.
 End Decrypted.
+
+(* ---------------- a PROPFAIL names a clause that does fail ---------------- *)
+
+(* what clause [c] says of one request read from a decrypted connection
+   ([ctls] = true) resp. from a cleartext tunnel *)
+Definition entry_clause_prop (c : clause) (ctls : bool) (q : inner) (f : rfields) : Prop :=
+  match c with
+  | COneSession => f_sess f = 0
+  | CScheme => ctls = true -> f_scheme f = Https
+  | CHost => ctls = true -> f_host f = want_host (i_form q)
+  | CSecure => ctls = true -> f_secure f = true
+  | CTlsState => ctls = true -> f_tls f = true
+  | CHijack => i_hijack q = true ->
+               (exists k, f_hk f = Some k /\ is_tls k = ctls) /\ f_marker f = Some true
+  | CUpstream => ctls = true -> i_hijack q = false -> f_up f = UpTls
+  | CResponse => ctls = true -> i_hijack q = false -> f_status f = Some 200
+  | CPlainInsecure => ctls = false ->
+               f_scheme f = Http /\ f_secure f = false /\ f_tls f = false /\
+               (i_hijack q = false -> f_up f = UpPlain \/ f_host f = HEmpty)
+  | CPresented | CShape => True     (* decided over the whole connection *)
+  end.
+
+Theorem entry_fail_names_failing_clause ctls q f c :
+  entry_fail ctls q f = Some c -> ~ entry_clause_prop c ctls q f.
+Proof.
+  unfold entry_fail.
+  destruct (Nat.eqb (f_sess f) 0) eqn:Es; cbn [negb];
+    [|intros E; inversion E; subst; cbn; apply Nat.eqb_neq in Es; exact Es].
+  destruct ctls.
+  - destruct (scheme_eqb (f_scheme f) Https) eqn:E1; cbn [negb];
+      [|intros E; inversion E; subst; cbn; intros H; apply scheme_eqb_eq in H; [congruence|reflexivity]].
+    destruct (host_eqb (f_host f) (want_host (i_form q))) eqn:E2; cbn [negb];
+      [|intros E; inversion E; subst; cbn; intros H; apply host_eqb_eq in H; [congruence|reflexivity]].
+    destruct (f_secure f) eqn:E3; cbn [negb];
+      [|intros E; inversion E; subst; cbn; intros H; specialize (H eq_refl); congruence].
+    destruct (f_tls f) eqn:E4; cbn [negb];
+      [|intros E; inversion E; subst; cbn; intros H; specialize (H eq_refl); congruence].
+    destruct (i_hijack q) eqn:E5.
+    + destruct (hijack_ok true f) eqn:E6; [discriminate|].
+      intros E; inversion E; subst; cbn. intros H. specialize (H E5). apply hijack_ok_iff in H. congruence.
+    + destruct (up_eqb (f_up f) UpTls) eqn:E6; cbn [negb];
+        [|intros E; inversion E; subst; cbn; intros H; specialize (H eq_refl E5); apply up_eqb_eq in H; congruence].
+      destruct (onat_eqb (f_status f) (Some 200)) eqn:E7; cbn [negb]; [discriminate|].
+      intros E; inversion E; subst; cbn. intros H. specialize (H eq_refl E5). apply onat_eqb_eq in H. congruence.
+  - destruct (negb (scheme_eqb (f_scheme f) Http) || f_secure f || f_tls f) eqn:E1.
+    + intros E; inversion E; subst; cbn. intros H. destruct (H eq_refl) as [Ha [Hb [Hc _]]].
+      rewrite Hb, Hc in E1. apply scheme_eqb_eq in Ha. rewrite Ha in E1. discriminate E1.
+    + destruct (i_hijack q) eqn:E5.
+      * destruct (hijack_ok false f) eqn:E6; [discriminate|].
+        intros E; inversion E; subst; cbn. intros H. specialize (H E5). apply hijack_ok_iff in H. congruence.
+      * destruct (negb (up_eqb (f_up f) UpPlain) && negb (host_eqb (f_host f) HEmpty)) eqn:E6; [|discriminate].
+        intros E; inversion E; subst; cbn. intros H. destruct (H eq_refl) as [_ [_ [_ Hd]]].
+        apply andb_true_iff in E6. destruct E6 as [Ea Eb].
+        apply negb_true_iff in Ea, Eb.
+        destruct (Hd E5) as [Hu|Hh].
+        -- apply up_eqb_eq in Hu. congruence.
+        -- apply host_eqb_eq in Hh. congruence.
+Qed.
